@@ -13,6 +13,7 @@ import (
 	"reflect"
 	"strings"
 	"testing"
+	"unsafe"
 )
 
 type input struct {
@@ -110,7 +111,8 @@ func Assert(c bool, msg string) {
 
 func Fail(msg string) { panic(assertFailed{msg}) }
 
-func Observe(vs ...any) {}
+// Observe records values for the engine-vs-native differential check.
+func Observe(vs ...any) { fmt.Println("VERIF-OBSERVE: " + strings.ReplaceAll(fmt.Sprint(vs...), "\n", "\\n")) }
 
 // Symbolic reports whether the harness runs under the symbolic executor.
 func Symbolic() bool { return false }
@@ -268,4 +270,91 @@ func B2I(c bool) int {
 		return 1
 	}
 	return 0
+}
+
+// ReplaceStrings replaces, in every string reachable from root (through pointers, structs,
+// slices, maps and interfaces), each marker by its replacement. It is the native
+// counterpart of the engine's lifting substitution.
+func ReplaceStrings(root any, subst map[string]string) {
+	if len(subst) == 0 {
+		return
+	}
+	seen := map[uintptr]bool{}
+	var walk func(v reflect.Value)
+	repl := func(s string) string {
+		for k, r := range subst {
+			if k != "" {
+				s = strings.ReplaceAll(s, k, r)
+			}
+		}
+		return s
+	}
+	walk = func(v reflect.Value) {
+		switch v.Kind() {
+		case reflect.Pointer:
+			if v.IsNil() || seen[v.Pointer()] {
+				return
+			}
+			seen[v.Pointer()] = true
+			walk(v.Elem())
+		case reflect.Interface:
+			if v.IsNil() {
+				return
+			}
+			e := v.Elem()
+			if e.Kind() == reflect.String {
+				if v.CanSet() {
+					nv := reflect.New(e.Type()).Elem()
+					nv.SetString(repl(e.String()))
+					v.Set(nv)
+				}
+				return
+			}
+			if e.Kind() == reflect.Pointer || e.Kind() == reflect.Map || e.Kind() == reflect.Slice {
+				walk(e)
+			} else if e.Kind() == reflect.Struct && v.CanSet() {
+				cp := reflect.New(e.Type()).Elem()
+				cp.Set(e)
+				walk(cp)
+				v.Set(cp)
+			}
+		case reflect.Struct:
+			for i := 0; i < v.NumField(); i++ {
+				f := v.Field(i)
+				if f.CanAddr() {
+					// reach unexported (embedded) fields as well
+					f = reflect.NewAt(f.Type(), unsafe.Pointer(f.UnsafeAddr())).Elem()
+				}
+				walk(f)
+			}
+		case reflect.Slice, reflect.Array:
+			for i := 0; i < v.Len(); i++ {
+				walk(v.Index(i))
+			}
+		case reflect.Map:
+			if v.IsNil() {
+				return
+			}
+			for _, k := range v.MapKeys() {
+				e := v.MapIndex(k)
+				nk := k
+				if k.Kind() == reflect.String {
+					nk = reflect.New(k.Type()).Elem()
+					nk.SetString(repl(k.String()))
+				}
+				cp := reflect.New(e.Type()).Elem()
+				cp.Set(e)
+				walk(cp)
+				if nk.Interface() != k.Interface() {
+					v.SetMapIndex(k, reflect.Value{})
+				}
+				v.SetMapIndex(nk, cp)
+			}
+		case reflect.String:
+			if v.CanSet() {
+				v.SetString(repl(v.String()))
+			}
+		}
+	}
+	walk(reflect.ValueOf(root))
 }
